@@ -220,6 +220,9 @@ pub enum Op {
     TakeSource(Id),
     DropDispatcher(Id),
     DropLoop,
+    /// LoopSignal::stop(), from anywhere (a callback of the batch in progress included): run()
+    /// and block_on() end after the iteration in progress, which is carried out in full
+    Stop,
     /// after DropLoop: a fresh EventLoop; everything the program still holds (kept
     /// dispatchers, ping and channel handles) outlived the first one
     NewLoop,
@@ -379,6 +382,7 @@ impl Op {
             Op::TakeSource(_) => "TakeSource",
             Op::DropDispatcher(_) => "DropDispatcher",
             Op::DropLoop => "DropLoop",
+            Op::Stop => "Stop",
             Op::NewLoop => "NewLoop",
             Op::ReinsertKept(_) => "ReinsertKept",
             Op::FailNext { .. } => "FailNext",
